@@ -222,32 +222,38 @@ def main(tier, replay):
         return v.finish()
     base = []
     for sh in shapes6():
-        for mode in ("2pc", "async", "1pc"):
+        for mode in ("2pc", "async", "1pc", "async1pc"):
             for pess in (False, True):
                 for bs in (0, 20):
                     muts = txnlab.expected_mutations({"ops": sh["ops"], "pessimistic": pess})
-                    if mode == "async" and "lock" in muts.values():
+                    if mode in ("async", "async1pc") and "lock" in muts.values():
                         continue   # unistore limitation (see C02)
                     base.append((sh, mode, pess, bs))
     rng.shuffle(base)
     if tier == "quick":
         base = base[:110]
-    probes = [txnlab.mk_scenario(f"p{i}", sh, mode, pess, batch_size=bs, causal=(i % 7 == 0)) for i, (sh, mode, pess, bs) in enumerate(base)]
+    base = txnlab.with_fallbacks(base)
+    cov["fallback_shapes"] = sum(1 for b in base if b[-1])
+    probes = [txnlab.mk_scenario(f"p{i}", sh, mode, pess, batch_size=bs, causal=(i % 7 == 0), **txnlab.fbkw(fb)) for i, (sh, mode, pess, bs, fb) in enumerate(base)]
     pres = txnlab.run_scenarios(exe, probes)
     cases = []
-    for (sh, mode, pess, bs), pr in zip(base, pres):
+    for (sh, mode, pess, bs, fb), pr in zip(base, pres):
         n = min(pr.get("counted", 0), 16)
-        tag = f"{sh['name']}-{mode}-{'p' if pess else 'o'}-b{bs}"
+        tag = f"{sh['name']}-{mode}{'fb' if fb else ''}-{'p' if pess else 'o'}-b{bs}"
+        _mk = txnlab.mk_scenario
+        def mk(*a, **kw):
+            kw.update(txnlab.fbkw(fb))
+            return _mk(*a, **kw)
         for i in range(n):
             fk = rng.choice(["regionerr:EpochNotMatch", "regionerr:NotLeader", "regionerr:ServerIsBusy", "split", "split", "dropresp", "push_min_commit", "reader"])
             if fk in ("push_min_commit", "reader"):
                 # another client reads at this instant: it meets the locks written so far (possibly a secondary whose
                 # primary is not prewritten yet) and may push the primary's min-commit ts under the committer's feet
-                cases.append(txnlab.mk_scenario(f"{tag}-{i}-{fk}", sh, mode, pess, batch_size=bs, extras=[{"at": i, "what": fk, "k": ""}]))
+                cases.append(mk(f"{tag}-{i}-{fk}", sh, mode, pess, batch_size=bs, extras=[{"at": i, "what": fk, "k": ""}]))
             elif fk == "split":
-                cases.append(txnlab.mk_scenario(f"{tag}-{i}-split", sh, mode, pess, batch_size=bs, extras=[{"at": i, "what": "split", "k": rng.choice(sh["keys"])}]))
+                cases.append(mk(f"{tag}-{i}-split", sh, mode, pess, batch_size=bs, extras=[{"at": i, "what": "split", "k": rng.choice(sh["keys"])}]))
             else:
-                cases.append(txnlab.mk_scenario(f"{tag}-{i}-{fk}", sh, mode, pess, batch_size=bs, faults=[{"at": i, "kind": fk}]))
+                cases.append(mk(f"{tag}-{i}-{fk}", sh, mode, pess, batch_size=bs, faults=[{"at": i, "kind": fk}]))
     if tier == "quick" and len(cases) > 1200:
         rng.shuffle(cases)
         cases = cases[:1200]
